@@ -884,7 +884,7 @@ def build(tier, seed):
     # ============================================================================================== device call site (size-bounded)
     # device_resolve_dynamic_wires supplies zeroed / min_int: checked against the allocator's precondition (Given disjoint from the
     # static wires and duplicate-free; every static wire that is equal to an integer is < min_int).  Wires: int labels, other
-    # labels (never equal to an int), and -- finding F24 -- floats with an integral value (equal to that int, but not `isinstance int`).
+    # labels (never equal to an int), and -- finding F26, fixed -- floats with an integral value (equal to that int, but not `isinstance int`).
     from vf.pyvc.engine import TupleT, FloatV
     FInt = T("float", integral=True)
     pcell = {}
@@ -969,12 +969,11 @@ def build(tier, seed):
         if mi is None or zeroed:
             return False
         fresh_ = And(True, *[S._t(mi) > S._t(i) for i in ints])
-        # exactly the documented choice: one more than the largest integer wire of the tape (0 when there is none)
-        real_ints = [t for t in static if int_value(t) is not None and not isinstance(t, (float, FloatV))]
-        if not real_ints:
+        # the documented choice: one more than the largest integer-valued wire label of the tape (0 when there is none)
+        if not ints:
             exact = S._t(mi) == 0
         else:
-            exact = And(Or(False, *[S._t(mi) == S._t(t) + 1 for t in real_ints]), *[S._t(mi) > S._t(t) for t in real_ints])
+            exact = Or(False, *[S._t(mi) == S._t(i) + 1 for i in ints])
         return And(same_tape and resets, exact, fresh_)
 
     def site_call(mod, args):
@@ -1015,15 +1014,15 @@ def build(tier, seed):
                       ensures=lambda o, r, nw: And(r is RESULT or r == "RESULT", site_ok(None, o, nw)),
                       raises={"AllocationError": lambda o: True}, native_call=site_call, native_gen=site_gen, size_bounded=True)
             cs.exc_ensures = site_ok
-            site_cases.append((cs, "F24" if ts == "f" else None))
+            site_cases.append((cs, None))        # F26 (float / numpy-integer labels) is fixed in the repository: an ordinary obligation now
     for cs, fid in site_cases:
         fc = FnContract(wp, "device_resolve_dynamic_wires", [cs])
         plan.fn_under_contract(PRE, "device_resolve_dynamic_wires")
         for ob in obligations_for(PID, fc, tier, finding=fid):
             plan.add(ob)
     plan.size_bounds = ["device call site: tapes with 0..2 static wires and devices with no / 0..2 wires, every wire an int label or a non-int label "
-                        "(all VALUES symbolic); one extra shape with a float label of integral value (finding F24)"]
-    plan.notes["F24"] = ("device_resolve_dynamic_wires picks min_int = 1 + max(int wires); a static wire labelled by a float with integral value "
+                        "(all VALUES symbolic); one extra shape with a float label of integral value (finding F26, fixed)"]
+    plan.notes["F26-fixed"] = ("device_resolve_dynamic_wires picks min_int = 1 + max(int wires); a static wire labelled by a float with integral value "
                          "(1.0 == 1, same hash) is ignored by isinstance(i, int), so a minted wire can alias it")
 
     for fc in contracts:
